@@ -337,6 +337,16 @@ def wStructEnumRefMember : Schemas := pkgOf [
   obj' "p" "S" (.struct [req "e" (.ref "p" "E" m0)] [] none m0),
   obj' "p" "E" (.enum [{ name := "a", value := .str "a", kind := "string" }, { name := "b", value := .str "b", kind := "string" }] m0)]
 
+/-- `tz?: "utc" | string | *""`: DisjunctionToType (Go chain) collapses the union into a plain,
+    NON-nullable scalar; the optional member's zero-valued default is then dropped by `omitempty` -/
+def wSameKindUnionZero : Schemas :=
+  pkgOf [root [opt "tz" (.disj [.scalar "string" (.str "utc") [] m0, sc "string" m0] {} (dm (.str "")))]]
+/-- the same union with a non-zero default is held by both languages -/
+def wSameKindUnion : Schemas :=
+  pkgOf [root [opt "tz" (.disj [.scalar "string" (.str "utc") [] m0, sc "string" m0] {} (dm (.str "browser")))]]
+
+theorem C10_counterexample_samekind_union_zero_default : ¬ C10_full :=
+  refutes_sound (W := wSameKindUnionZero) (pkg := "p") (name := "Root") (field := "tz") (by decide +kernel)
 theorem C10_counterexample_list_of_ints : ¬ C10_full :=
   refutes_sound (W := wListOfInts) (pkg := "p") (name := "Root") (field := "li") (by decide +kernel)
 theorem C10_counterexample_list_of_json_numbers : ¬ C10_full :=
@@ -375,7 +385,9 @@ theorem C10_witness_verdicts :
     verdicts wInlineEnum "ie" = some (false, true, false) ∧
     verdicts wNestedOverride "n" = some (false, true, false) ∧
     verdicts wStructEnumMember "se" = some (false, true, false) ∧
-    verdicts wStructEnumRefMember "se" = some (true, false, false) := by  -- Python alters it
-  refine ⟨?_, ?_, ?_, ?_, ?_, ?_, ?_, ?_, ?_⟩ <;> decide +kernel
+    verdicts wStructEnumRefMember "se" = some (true, false, false) ∧      -- Python alters it
+    verdicts wSameKindUnionZero "tz" = some (false, true, false) ∧        -- Go omits "" (omitempty)
+    verdicts wSameKindUnion "tz" = some (true, true, true) := by          -- a non-zero default is held
+  refine ⟨?_, ?_, ?_, ?_, ?_, ?_, ?_, ?_, ?_, ?_, ?_⟩ <;> decide +kernel
 
 end Cog.Sem.Defaults
